@@ -354,6 +354,16 @@ pub fn graph_stop() {
     GRAPH.with(|g| *g.borrow_mut() = None);
 }
 
+/// how many of the cells numbered so far are still alive (strong count above zero)
+pub fn graph_alive() -> usize {
+    GRAPH.with(|g| {
+        g.borrow()
+            .as_ref()
+            .map(|r| r.keep.iter().filter(|w| w.strong_count() > 0).count())
+            .unwrap_or(0)
+    })
+}
+
 fn cell_ptr(c: &StackObjectRef) -> usize {
     std::rc::Rc::as_ptr(&c.0) as *const () as usize
 }
